@@ -130,6 +130,28 @@ func (s *Sim) queryCases() []queryCase {
 				}
 				return out
 			}},
+		{name: "like-literal", ordered: true,
+			// the same pattern written into the statement text (a '%' in the text is the statement's, nobody else's)
+			stmt: `SELECT json_quote(id) AS id FROM $_keyspace WHERE id LIKE '` + prefix + `' AND (length(id) % 2) = 0 ORDER BY id`,
+			want: func(docs []liveDoc) []QRow {
+				var out []QRow
+				for _, d := range docs {
+					if like(d.id) && len(d.id)%2 == 0 {
+						out = append(out, idRow(d))
+					}
+				}
+				return out
+			}},
+		{name: "quoted-column-names", ordered: true,
+			stmt: `SELECT json_quote(id) AS "the ""id""", json_quote(id) AS "back\slash", json_quote(id) AS "tab	and
+newline" FROM $_keyspace ORDER BY id`,
+			want: func(docs []liveDoc) []QRow {
+				var out []QRow
+				for _, d := range docs {
+					out = append(out, QRow{`the "id"`: canon(d.id), `back\slash`: canon(d.id), "tab\tand\nnewline": canon(d.id)})
+				}
+				return out
+			}},
 		{name: "order-limit", ordered: true,
 			stmt: fmt.Sprintf(`SELECT json_quote(id) AS id FROM $_keyspace ORDER BY id DESC LIMIT %d`, lim),
 			want: func(docs []liveDoc) []QRow {
@@ -322,8 +344,16 @@ func (s *Sim) JudgeQueries(b, c int) {
 			sort.Strings(wk)
 		}
 		if strings.Join(gk, "\n") != strings.Join(wk, "\n") {
-			s.reportQuery(q.name, "query.rows", fmt.Sprintf("query %s on b%d/c%d: got %d rows, the KV read-back gives %d", q.name, b, c, len(got), len(want)),
-				map[string]any{"stmt": q.stmt, "args": q.args, "got": gk, "want": wk, "docs": s.docDigest(b, c)})
+			detail := map[string]any{"stmt": q.stmt, "args": q.args, "got": gk, "want": wk, "docs": s.docDigest(b, c)}
+			// a row for a key that has no body: the query is one of the observers that must report a deleted document as absent (C05)
+			for _, r := range got {
+				for k, o := range s.Last {
+					if k.B == b && k.C == c && o.present() && !o.hasBody() && (r["id"] == canon(k.K) || r[`the "id"`] == canon(k.K)) {
+						detail["tombstone_in_result"] = k.K
+					}
+				}
+			}
+			s.reportQuery(q.name, "query.rows", fmt.Sprintf("query %s on b%d/c%d: got %d rows, the KV read-back gives %d", q.name, b, c, len(got), len(want)), detail)
 		}
 	}
 }
@@ -343,7 +373,12 @@ func (s *Sim) reportQuery(name, kind, msg string, detail map[string]any) {
 	}
 	detail["config"] = s.Env.Cfg
 	detail["last_steps"] = s.Log[from:n]
-	s.Ctx.Viol([]string{"C19"}, fmt.Sprintf("%s|%s|after:%s", kind, name, last), msg, detail)
+	props := []string{"C19"}
+	if t, ok := detail["tombstone_in_result"]; ok {
+		props = []string{"C05", "C19"}
+		msg += fmt.Sprintf("; the result has a row for %v, which is a tombstone", t)
+	}
+	s.Ctx.Viol(props, fmt.Sprintf("%s|%s|after:%s", kind, name, last), msg, detail)
 }
 
 // QueryRows runs one SQL statement over (b, c) and returns the canonical rows in result order (or the error text).
